@@ -155,13 +155,15 @@ theorem repaired_flush_partial (fc : FCfg) (h1 : fc.rollsBackFailedBlock = true)
         right
         have e1 : (nextRes rs).1 = .ok := by cases h : (nextRes rs).1 <;> simp_all [Res.isOk]
         have e2 : (nextRes (nextRes rs).2).1 = .ok := by cases h : (nextRes (nextRes rs).2).1 <;> simp_all [Res.isOk]
+        have t16 : (hdrCells (mk w.buf)).take (Res.ok.written (hdrCells (mk w.buf)).length) = hdrCells (mk w.buf) :=
+          List.take_of_length_le (by simp [Res.written])
+        have tp : (payCells (mk w.buf)).take (Res.ok.written (payCells (mk w.buf)).length) = payCells (mk w.buf) :=
+          List.take_of_length_le (by simp [Res.written])
         have g1 := get_applyRes_write d w.path _ hfile (hdrCells (mk w.buf)) .ok
-        rw [← hF] at g1
-        simp only [Res.written, hdrCells_length, List.take_length] at g1
+        rw [← hF, t16] at g1
         have g2 := get_applyRes_write _ w.path _ g1 (payCells (mk w.buf)) .ok
         have hl : (fileCells nl bs ++ hdrCells (mk w.buf)).length = w.pos + 16 := by simp [hF]
-        rw [hl] at g2
-        simp only [Res.written, List.take_length] at g2
+        rw [hl, tp] at g2
         have g2' : ((d.applyRes (.write w.path w.pos (hdrCells (mk w.buf))) .ok).applyRes
             (.write w.path (w.pos + 16) (payCells (mk w.buf))) .ok).get w.path = some (fileCells nl (bs ++ [mk w.buf])) := by
           rw [g2, hblk]; simp [blockCells, List.append_assoc]
@@ -172,14 +174,17 @@ theorem repaired_flush_partial (fc : FCfg) (h1 : fc.rollsBackFailedBlock = true)
             (.write w.path (w.pos + 16) (payCells (mk w.buf))) .ok).applyRes (.write w.path 0 (fhCells w.nl)) r).get w.path =
               some (fileCells nl (bs ++ [mk w.buf])) := by
           intro r
-          simp only [Disk.applyRes]
-          rw [Disk.apply_write_get _ w.path w.path 0 _ _ g2', splice_hdr_torn hh]; simp
+          have := Disk.apply_write_get _ w.path w.path 0 ((fhCells w.nl).take (r.written (fhCells w.nl).length)) _ g2'
+          rw [splice_hdr_torn hh] at this
+          simpa [Disk.applyRes] using this
         have hpos : w.pos + 16 + (mk w.buf).plen = (fileCells nl (bs ++ [mk w.buf])).length := by
           rw [hblk]; simp [hF]; omega
         rw [e1, e2]
-        split
-        · exact ⟨⟨g3 _, hpos, hh⟩, rfl⟩
-        · exact ⟨⟨g3 _, hpos, hh⟩, rfl⟩
+        by_cases k3 : (nextRes (nextRes (nextRes rs).2).2).1.isOk = true
+        · simp only [k3, Bool.not_true, Bool.false_eq_true, if_false]
+          exact ⟨⟨g3 _, hpos, hh⟩, trivial⟩
+        · simp only [k3, Bool.not_false, if_true]
+          exact ⟨⟨g3 _, hpos, hh⟩, trivial⟩
       · -- the payload write failed: cut the fragment off again
         simp only [k2, Bool.not_false, if_true]
         left
@@ -195,7 +200,7 @@ theorem repaired_flush_partial (fc : FCfg) (h1 : fc.rollsBackFailedBlock = true)
         have g3 := get_truncate_back _ w.path _ _ g2
         rw [← hF] at g3
         rw [e1, ht]
-        exact ⟨⟨g3, hF, hinv.hdr⟩, rfl⟩
+        exact ⟨⟨g3, hF, hinv.hdr⟩, trivial⟩
     · -- the header write failed: cut the fragment off again
       simp only [k1, Bool.not_false, if_true]
       left
@@ -207,7 +212,7 @@ theorem repaired_flush_partial (fc : FCfg) (h1 : fc.rollsBackFailedBlock = true)
       have g3 := get_truncate_back _ w.path _ _ g1
       rw [← hF] at g3
       rw [ht]
-      exact ⟨⟨g3, hF, hinv.hdr⟩, rfl⟩
+      exact ⟨⟨g3, hF, hinv.hdr⟩, trivial⟩
 
 /-- **Repaired writer (partial).**  With a flush that rolls a failed block back and restores the
     offset after a failed header rewrite, nothing is hidden and nothing is dropped — for every
@@ -237,5 +242,76 @@ example : ∃ (w : WSt) (d : Disk), WInv d w (fileCells 0 []) ∧ w.buf ≠ [] :
   ⟨{ path := .main, pos := 64, nl := 0, buf := [Op.put 1 1], bufSize := 10, bs := 100 },
    { main := some (fileCells 0 []), temp := none },
    ⟨rfl, by simp [fileCells, render, nmCells], fileCells_hdr 0 []⟩, by simp⟩
+
+/-! ### Decision over the extracted facts -/
+
+structure Facts where
+  /-- `WriteBuffer.Flush` empties the buffer, and flushLocked calls it before the first write -/
+  clearsBufferBeforeWrite : Tri
+  /-- flushLocked cuts a failed block off again (repair; not in the tree) -/
+  rollsBackFailedBlock : Tri
+  /-- flushLocked restores the offset when the header rewrite fails (repair; not in the tree) -/
+  restoresOffsetAfterHeader : Tri
+  /-- chronicler.Write logs a WriteEntry error and goes on with the next entry -/
+  writeErrorsSkipped : Tri
+  /-- fileWriterHandler only logs a Sync error -/
+  syncErrorLogged : Tri
+  flushOrderCanonical : Tri
+  syncFsyncs : Tri
+  closeFsyncs : Tri
+  opensExistingForAppend : Tri
+  truncatesTornTail : Tri
+  shortHeaderIsEOF : Tri
+  tornDataIsEOF : Tri
+  deriving Repr
+
+def cfgOf (f : Facts) : Cfg :=
+  { r := ⟨f.shortHeaderIsEOF.isYes, f.tornDataIsEOF.isYes, false⟩,
+    syncFsyncs := f.syncFsyncs.isYes, closeFsyncs := f.closeFsyncs.isYes,
+    truncatesTornTail := f.truncatesTornTail.isYes,
+    loadCleansTemp := true, rmTempLocked := true, rmTempFromIndex := true, rmTempCompactor := true }
+
+def fcOf (f : Facts) : FCfg :=
+  ⟨f.clearsBufferBeforeWrite.isYes, f.rollsBackFailedBlock.isYes, f.restoresOffsetAfterHeader.isYes⟩
+
+def modelApplies (f : Facts) : Bool :=
+  f.flushOrderCanonical.isYes && f.writeErrorsSkipped.isYes && f.syncErrorLogged.isYes && f.syncFsyncs.isYes &&
+  f.closeFsyncs.isYes && f.opensExistingForAppend.isYes && f.shortHeaderIsEOF != .unknown && f.tornDataIsEOF != .unknown &&
+  f.truncatesTornTail != .unknown && f.clearsBufferBeforeWrite != .unknown && f.rollsBackFailedBlock != .unknown &&
+  f.restoresOffsetAfterHeader != .unknown
+
+/-- the defects the current failure handling exposes (each reproduced by the correspondence run;
+    `failed_write_drops_entries` is the kernel-checked witness that refutes `Holds`) -/
+def currentFindings : List String :=
+  ["C25-failed-write-drops-entries", "C25-partial-block-strands-later-writes",
+   "C25-failed-header-rewrite-overwrites-file", "C25-failed-create-bricks-swamp"]
+
+def classify (f : Facts) : Verdict :=
+  if !modelApplies f then .undetermined "a failure-handling fact was not recognised (the model does not describe this code)"
+  else if f.clearsBufferBeforeWrite.isYes && !f.rollsBackFailedBlock.isYes then .violated currentFindings
+  else .undetermined "no full theorem for this failure handling (repaired writer: only repaired_writer_safe_partial)"
+
+/-- what is proved for a repaired writer -/
+def Partial (c : Cfg) (fc : FCfg) : Prop :=
+  fc.rollsBackFailedBlock = true → fc.restoresOffsetAfterHeader = true →
+  ∀ (mk : Mk), MkOk mk → ∀ (nl : Nat) (bs : List Block), (∀ b ∈ bs, b.WF) →
+  ∀ (w : WSt) (d : Disk), WInv d w (fileCells nl bs) → w.buf ≠ [] →
+  ∀ (rs : List Res), rollbackRes rs = .ok → ∀ (items : List (Op × Nat)),
+    ∃ f, (afterFault c fc mk w d rs items).d.get (flushWF fc mk { w := w, d := d, rs := rs }).w.path = some f ∧
+      loadEntries c.r f = entsOf bs ++ w.buf ++ items.map (·.1)
+
+theorem C25_partial (c : Cfg) (fc : FCfg) : Partial c fc :=
+  fun h1 h2 mk hmk nl bs hwf w d hinv hb rs hrb items =>
+    repaired_writer_safe_partial c fc h1 h2 mk hmk nl bs hwf w d hinv hb rs hrb items
+
+theorem classify_sound (f : Facts) : (classify f).Sound (Holds (cfgOf f) (fcOf f)) (Partial (cfgOf f) (fcOf f)) := by
+  unfold classify
+  split
+  · trivial
+  · split
+    · rename_i h
+      simp only [Bool.and_eq_true, Bool.not_eq_true'] at h
+      exact ⟨failed_write_drops_entries (cfgOf f) (fcOf f) h.1 h.2, C25_partial _ _⟩
+    · trivial
 
 end Hv.C25
